@@ -1,6 +1,7 @@
 import TeaalVerif.Driver.Util
 import TeaalVerif.Driver.C10
 import TeaalVerif.Nest.Compile
+import TeaalVerif.Props.C01Ext
 open Lean
 namespace Driver
 open Nest
@@ -52,7 +53,12 @@ def nest (j : Json) : Except String Json := do
   let m := collect S (spec ls sts)
   let plain := S.terms.all fun t => t.kind == .times || (t.kind == .take 0 && t.tensors.length == 1)
   let singleTake := S.terms.length == 1 && S.terms.all fun t => t.tensors.all fun x => !x.ranks.isEmpty
+  -- the hypotheses of C01.resultAt_eq_meaning' (all decidable), evaluated on this specification and input
+  let hyps := decide (S.WF ∧ S.loop.Nodup ∧ S.exts.length = S.loop.length ∧
+    (∀ t ∈ S.terms, t.kind = .times ∨ (t.kind = .take 0 ∧ t.tensors.length = 1)) ∧ C01.InBounds S env ∧ C01.InputsWF S env ∧
+    S.outRanks.Nodup ∧ (∀ r ∈ S.outRanks, r ∈ S.loop))
   let base := [("run", jPts r), ("spec", jPts m), ("wf", Json.bool (decide S.WF)), ("in_proved_class", Json.bool (plain || singleTake)),
+               ("plain", Json.bool plain), ("hyps_ok", Json.bool hyps),
                ("expected_loops", jLoops (expectedLoops S))]
   match j.getObjVal? "tree" with
   | .ok tj =>
